@@ -111,7 +111,7 @@ func (e *Env) lockStruct(pkg *packages.Package, tn *types.TypeName, st *types.St
 					if call, ok := stack[len(stack)-1].(*ast.CallExpr); ok && call.Fun != ast.Expr(fl) {
 						// argument of a call: runs (at the latest) during that call if the callee does
 						// not retain it — accepted for callees from the standard library's go/ast
-						if fn := calleeFunc(info, call); fn != nil && fn.Pkg() != nil && (fn.Pkg().Path() == "go/ast" || fn.Pkg().Path() == "sort" || fn.Pkg().Path() == load.PkgDst) {
+						if fn := calleeFunc(info, call); fn != nil && fn.Pkg() != nil && (fn.Pkg().Path() == "go/ast" || isSortPkg(fn) || fn.Pkg().Path() == load.PkgDst) {
 							h = held(call.Pos())
 							// nested in another literal: inherit that literal's state
 							for i := len(stack) - 1; i >= 0; i-- {
@@ -154,7 +154,7 @@ func (e *Env) lockStruct(pkg *packages.Package, tn *types.TypeName, st *types.St
 				}
 				// a method value handed to a library function that calls it during the call
 				// (ast.Inspect(file, x.visit)): called with the lock state of this call
-				if fn := calleeFunc(info, call); fn != nil && fn.Pkg() != nil && (fn.Pkg().Path() == "go/ast" || fn.Pkg().Path() == "sort" || fn.Pkg().Path() == load.PkgDst) {
+				if fn := calleeFunc(info, call); fn != nil && fn.Pkg() != nil && (fn.Pkg().Path() == "go/ast" || isSortPkg(fn) || fn.Pkg().Path() == load.PkgDst) {
 					for _, a := range call.Args {
 						if se, ok := a.(*ast.SelectorExpr); ok {
 							if mf, ok := info.Uses[se.Sel].(*types.Func); ok && mf.Pkg() == pkg.Types {
